@@ -52,7 +52,6 @@ def runSeqstat (argv : List String) (files : String → Option (List Char)) : Op
   let f ← files fn
   let recs := parseFasta f
   if recs.isEmpty || !allDigitizable a recs then none
-  if a == .amino && p.has "-c" && !p.has "--comptbl" then none    -- log-odds column not modelled
   some (seqstatText { perSeq := p.has "-a", comp := p.has "-c", comptbl := p.has "--comptbl" } a "FASTA" recs)
 
 def sameLen (rs : List Rec) : Bool :=
@@ -243,17 +242,21 @@ def runShuffle (argv : List String) (files : String → Option (List Char)) : Op
 
 /-- esl-weight [-g | -p | -b [--id x]] --informat afa (--dna|--rna|--amino) <afa> -/
 def runWeight (argv : List String) (files : String → Option (List Char)) : Option String := do
-  let p ← parseArgs ["--dna", "--rna", "--amino", "-g", "-p", "-b"] ["--informat", "--id"] argv {}
+  let p ← parseArgs ["--dna", "--rna", "--amino", "-g", "-p", "-b", "-f"] ["--informat", "--id", "--idf"] argv {}
   if !fmtIs p "--informat" "afa" then none
   let a ← abcOf p
-  let nalg := (if p.has "-g" then 1 else 0) + (if p.has "-p" then 1 else 0) + (if p.has "-b" then 1 else 0)
+  let nalg := (if p.has "-g" then 1 else 0) + (if p.has "-p" then 1 else 0) + (if p.has "-b" then 1 else 0) + (if p.has "-f" then 1 else 0)
+  if (p.val? "--idf").isSome && !p.has "-f" then none
   if nalg > 1 then none
   if (p.val? "--id").isSome && !p.has "-b" then none
   let maxid ← match p.val? "--id" with | some v => parseFloatS v | none => some 0.62
   let [fn] := p.pos | none
   let recs := parseFasta (← files fn)
   if !alignedOk a recs || !namesDistinct recs then none
-  weightText a (if p.has "-p" then "-p" else if p.has "-b" then "-b" else "-g") maxid recs
+  if p.has "-f" then
+    let idf ← match p.val? "--idf" with | some v => parseFloatS v | none => some 0.8
+    weightFilterText a idf recs
+  else weightText a (if p.has "-p" then "-p" else if p.has "-b" then "-b" else "-g") maxid recs
 
 /-- esl-alistat [-1] --informat afa (--dna|--rna|--amino) <afa> -/
 def runAlistat (argv : List String) (files : String → Option (List Char)) : Option String := do
@@ -265,16 +268,36 @@ def runAlistat (argv : List String) (files : String → Option (List Char)) : Op
   if !alignedOk a recs || !namesDistinct recs then none
   some (if p.has "-1" then eslAlistatOneLine a recs else eslAlistatText a recs)
 
+/-- the record named `key`, echoed verbatim: its header line and the following lines up to the next header -/
+def echoRecord (ls : List Line) (key : List Char) : Option (List Line) :=
+  let rec go : List Line → Option (List Line)
+    | [] => none
+    | l :: rest =>
+      match l with
+      | '>' :: h => if (parseHeader h).1 = key then some (l :: rest.takeWhile (fun x => x.head? != some '>')) else go rest
+      | _ => go rest
+  go ls
+
 /-- easel downsample --seed s [-s] <m> <file>  |  easel alistat (--dna|--rna|--amino) <afa> -/
 def runEasel (argv : List String) (files : String → Option (List Char)) : Option String := do
   match argv with
   | "downsample" :: rest =>
-    let p ← parseArgs ["-s"] ["--seed"] rest {}
+    let p ← parseArgs ["-s", "-S"] ["--seed"] rest {}
     let seed ← seedOf p
     let [ms, fn] := p.pos | none
     let m ← ms.toNat?
     let f ← files fn
-    if p.has "-s" then
+    if p.has "-s" && p.has "-S" then none
+    if p.has "-S" then
+      let recs := parseFasta f
+      if recs.isEmpty || !namesDistinct recs || recs.length < m ||
+         recs.any (fun r => r.seq.isEmpty || r.seq.any fun c => !c.isAlpha) then none
+      let idx := downsampleBigIndices seed m recs.length
+      let outs ← idx.mapM fun i => do
+        let r ← recs[i]?
+        echoRecord (fileLines f) r.name
+      some (String.ofList (unlines outs.flatten))
+    else if p.has "-s" then
       let recs := parseFasta f
       if recs.isEmpty || recs.any (fun r => r.seq.isEmpty || r.seq.any fun c => !c.isAlpha) then none
       downsampleSeqsText seed m recs
@@ -297,25 +320,19 @@ def runEasel (argv : List String) (files : String → Option (List Char)) : Opti
     if !alignedOk a recs || !namesDistinct recs then none
     filterText a maxid recs
   | "alistat" :: rest =>
-    let p ← parseArgs ["--dna", "--rna", "--amino"] [] rest {}
+    let p ← parseArgs ["--dna", "--rna", "--amino", "-1"] [] rest {}
     let a ← abcOf p
     let [fn] := p.pos | none
-    let recs := parseFasta (← files fn)
+    let f ← files fn
+    let recs := parseFasta f
     if !alignedOk a recs || !namesDistinct recs then none
-    some (easelAlistatText a recs)
+    if p.has "-1" then
+      if f.head? != some '>' then none
+      some (easelAlistatOneLine a f.length recs)
+    else some (easelAlistatText a recs)
   | _ => none
 
 /-! esl-sfetch (an SSI index must exist: the driver records `<file>.ssi` when it sees `esl-sfetch --index <file>`) -/
-
-/-- the record named `key`, echoed verbatim: its header line and the following lines up to the next header -/
-def echoRecord (ls : List Line) (key : List Char) : Option (List Line) :=
-  let rec go : List Line → Option (List Line)
-    | [] => none
-    | l :: rest =>
-      match l with
-      | '>' :: h => if (parseHeader h).1 = key then some (l :: rest.takeWhile (fun x => x.head? != some '>')) else go rest
-      | _ => go rest
-  go ls
 
 def fetchOne (p : Parsed) (f : List Char) (recs : List Rec) (key : List Char) : Option (List Char) := do
   let r ← recs.find? (·.name = key)
@@ -409,13 +426,7 @@ def runTranslate (argv : List String) (files : String → Option (List Char)) : 
 def runSfetch (argv : List String) (files : String → Option (List Char)) : Option String :=
   (runSfetchFull argv files).map (·.1)
 
-/-- files a successful invocation leaves behind (only esl-sfetch -o / -O are modelled) -/
-def filesWritten (tool : String) (argv : List String) (files : String → Option (List Char)) : List (String × List Char) :=
-  match tool with
-  | "esl-sfetch" => ((runSfetchFull argv files).map (·.2)).getD []
-  | _ => []
-
-def runTool (tool : String) (argv : List String) (files : String → Option (List Char)) : Option String :=
+def runToolCore (tool : String) (argv : List String) (files : String → Option (List Char)) : Option String :=
   match tool with
   | "esl-seqstat" => runSeqstat argv files
   | "esl-alirev" => runAlirev argv files
@@ -431,5 +442,24 @@ def runTool (tool : String) (argv : List String) (files : String → Option (Lis
   | "esl-weight" => runWeight argv files
   | "easel" => runEasel argv files
   | _ => none
+
+/-- `-o <f>` of the tools that then print nothing on stdout -/
+def splitO : List String → List String → Option (String × List String)
+  | "-o" :: f :: rest, acc => some (f, acc.reverse ++ rest)
+  | a :: rest, acc => splitO rest (a :: acc)
+  | [], _ => none
+
+/-- predicted stdout and the files the invocation writes -/
+def runToolFull (tool : String) (argv : List String) (files : String → Option (List Char)) :
+    Option (String × List (String × List Char)) :=
+  if tool == "esl-sfetch" then runSfetchFull argv files
+  else if ["esl-shuffle", "esl-reformat", "esl-mask", "esl-weight"].contains tool then
+    match splitO argv [] with
+    | some (f, rest) => (runToolCore tool rest files).map fun out => ("", [(f, out.toList)])
+    | none => (runToolCore tool argv files).map fun out => (out, [])
+  else (runToolCore tool argv files).map fun out => (out, [])
+
+def runTool (tool : String) (argv : List String) (files : String → Option (List Char)) : Option String :=
+  (runToolFull tool argv files).map (·.1)
 
 end EaselModel.Miniapps
